@@ -42,7 +42,7 @@ def build(init, mx, flavours, root=None, imported=False):
     os.makedirs(d, exist_ok=True)
     rc, err = batch.translate(module(init, mx, imported), d, w2c2=mclib.w2c2_binary())
     if rc != 0:
-        raise mclib.MachineryError('w2c2 failed on the C18 module: ' + err)
+        raise mclib.PipelineFailure('w2c2 failed on the C18 module', err)
     src = open(os.path.join(d, 'm.c')).read()
     if 'mNewChild' not in src or (not imported and 'i->m0 = parent->m0' not in src.replace('\n', ' ')):
         raise NotShared('the module declares (memory %d %d shared), but the generated NewChild does not hand the parent\'s memory to the child: every thread of the instance family would get a memory of its own' % (init, mx))
@@ -281,6 +281,9 @@ def main(tier):
         chk.assumptions += ['sequentially consistent scheduler: preemption only at synchronisation calls and harness yields; data races between those points are decided by ThreadSanitizer on each serial schedule',
                             'hardware atomicity of __atomic builtins and correctness of gcc/clang/TSan/ASan are trusted',
                             'schedules beyond the completed preemption bound and more than 3 threads are not covered']
+    except mclib.PipelineFailure as e:
+        mclib.report_pipeline_failure(chk, e, 'bin/check C18 quick')
+        return chk.finish()
     except mclib.MachineryError as e:
         print('MACHINERY-ERROR C18: %s' % e)
         return 2
